@@ -682,6 +682,10 @@ def run(ctx):
         elif mode == 'media':
             guard(d, 'media', lambda: req.get_media())
             guard(d, 'media(2nd)', lambda: req.get_media())
+            # later accesses with a default, the falsy ones and None included: the same on both stacks
+            guard(d, 'media(3rd, default None)', lambda: req.get_media(default_when_empty=None))
+            guard(d, 'media(4th, default 0)', lambda: req.get_media(default_when_empty=0))
+            guard(d, 'media(5th)', lambda: req.media)
         elif mode == 'media-default':
             guard(d, 'media', lambda: req.get_media(default_when_empty={'dflt': 1}))
 
@@ -714,6 +718,9 @@ def run(ctx):
         elif mode == 'media':
             await aguard('media', lambda: req.get_media())
             await aguard('media(2nd)', lambda: req.get_media())
+            await aguard('media(3rd, default None)', lambda: req.get_media(default_when_empty=None))
+            await aguard('media(4th, default 0)', lambda: req.get_media(default_when_empty=0))
+            await aguard('media(5th)', lambda: req.get_media())
         elif mode == 'media-default':
             await aguard('media', lambda: req.get_media(default_when_empty={'dflt': 1}))
 
